@@ -136,3 +136,59 @@ class PPidStrings:
     def ensures(case, old, new, result):
         p = new[1]
         return len(p) == 2 or p[0] is p[1]
+
+
+@contract
+class PDefaultFunctExpr:
+    """a bare default value reaches p_default through `DEFAULT funct_expr` (funct_expr : multi_id : id): same obligation"""
+    fn = "dialects.sql.BaseSQL.p_default"
+    props = ["C07", "C01"]
+    cases = {"DEFAULT funct_expr": {}}
+
+    def build(G, case):
+        return dict(args=[G.parser(), production(G, "DEFAULT funct_expr", {2: G.str("v", IDENT, "10000")})])
+
+    def requires(case, self_, p):
+        return p[2].upper() != "FOR" and p[2] != "DEFAULT"
+
+    def spec(case, self_, p):
+        if p[2].isnumeric():
+            p[0] = {"default": int(p[2])}
+        else:
+            p[0] = {"default": p[2]}
+
+
+@contract
+class ValueChain:
+    """the productions a bare value passes on its way to DEFAULT copy it verbatim"""
+    fn = "-"
+    props = ["C07", "C01"]
+    cases = {
+        "multi_id : id": dict(fn="dialects.sql.BaseSQL.p_multi_id", alt="id", out="same"),
+        "multi_id : multi_id id": dict(fn="dialects.sql.BaseSQL.p_multi_id", alt="multi_id id", out="join"),
+        "funct_expr : multi_id": dict(fn="dialects.sql.BaseSQL.p_funct_expr", alt="multi_id", out="same"),
+        "funct_expr : LP multi_id RP": dict(fn="dialects.sql.BaseSQL.p_funct_expr", alt="LP multi_id RP", out="inner"),
+        "f_call : id LP RP": dict(fn="dialects.sql.BaseSQL.p_f_call", alt="id LP RP", out="call"),
+        "dot_id : id DOT id": dict(fn="dialects.sql.BaseSQL.p_dot_id", alt="id DOT id", out="dot"),
+    }
+
+    def build(G, case):
+        alt = case["alt"]
+        vals = {i: G.str("w%d" % i, r"[a-zA-Z_0-9$#@.:']+", "now") for i, s in enumerate(alt.split(), 1) if s in ("id", "multi_id")}
+        return dict(args=[G.parser(), production(G, alt, vals)])
+
+    def requires(case, self_, p):
+        return case["out"] != "call" or p[1].upper() != "CAST"
+
+    def spec(case, self_, p):
+        o = case["out"]
+        if o == "same":
+            p[0] = p[1]
+        elif o == "join":
+            p[0] = p[1] + " " + p[2]
+        elif o == "inner":
+            p[0] = p[2]
+        elif o == "call":
+            p[0] = p[1] + "()"
+        else:
+            p[0] = p[1] + "." + p[3]
